@@ -142,3 +142,86 @@ def site_signature(sched):
     return ';'.join('%d>%d@%s' % (a, b, w if isinstance(w, str) else
                                   '%s:%d' % w)
                     for a, b, w in sched.switch_sites[:12])
+
+
+# ---------------------------------------------------------------------------
+# race-directed sweep: pre-emption points where threads touch the same field
+
+_REC_SCHEDULES = 6
+
+
+def race_candidates(case):
+    """Sites worth pre-empting at, found by *running* the base: recording
+    runs (default order, each sender first, a few seeded random walks) log
+    every read / write of a field of the connection state with the thread and
+    the yield point; a field touched by two threads, at least once written,
+    makes each of its access points - and the yield point that follows it in
+    the same thread - a candidate (tid, where, occurrence).  Nothing here
+    names a field or a line of lomond: a tree that keeps its flags elsewhere
+    gets its own candidates."""
+    nt = len(case['threads']) + 1
+    specs = [{'kind': 'preempt', 'points': []}]
+    specs += [{'kind': 'preempt', 'points': [[1, t]]} for t in range(1, nt)]
+    specs += [{'kind': 'random', 'seed': 1000 + k, 'stay': 0.9}
+              for k in range(_REC_SCHEDULES)]
+    cands = set()
+    for spec in specs:
+        c = dict(case)
+        c['schedule'] = spec
+        sc = build(c)
+        sc['record_access'] = True
+        tr, sched = threadsim.run(sc)
+        visits, acc = sched.visits or [], sched.accesses or []
+        occ, cnt, nxt, last = [], {}, {}, {}
+        for i, v in enumerate(visits):
+            cnt[v] = cnt.get(v, 0) + 1
+            occ.append(cnt[v])
+            if v[0] in last:
+                nxt[last[v[0]]] = i
+            last[v[0]] = i
+        by_attr = {}
+        for vi, tid, name, kind in acc:
+            by_attr.setdefault(name, []).append((vi, tid, kind))
+        for name, lst in by_attr.items():
+            if len({t for _, t, _ in lst}) < 2 or \
+                    not any(k == 'w' for _, _, k in lst):
+                continue
+            for vi, tid, kind in lst:
+                # before and after a write; after a read (the window between
+                # a test and what is done on its strength)
+                for j in ((vi, nxt.get(vi)) if kind == 'w' else
+                          (nxt.get(vi),)):
+                    if j is None or j < 0:
+                        continue
+                    t, where = visits[j]
+                    cands.add((t, where if isinstance(where, str)
+                               else tuple(where), occ[j]))
+    return sorted(cands, key=repr)
+
+
+def race_schedules(case, cands, depth, cap=None, seed=0):
+    """Every set of at most `depth` site rules over the candidates x every
+    target thread x every initial order; a seeded sample of `cap` of them
+    when there are more."""
+    import itertools
+    import random as _random
+    nt = len(case['threads']) + 1
+    orders = [[]] + [[[1, t]] for t in range(1, nt)]
+    out = []
+    for k in range(1, depth + 1):
+        for combo in itertools.combinations(cands, k):
+            targets = [[t for t in range(nt) if t != c[0]] for c in combo]
+            for tos in itertools.product(*targets):
+                rules = [[c[0], list(c[1]) if isinstance(c[1], tuple) else c[1],
+                          c[2], to] for c, to in zip(combo, tos)]
+                for o in orders:
+                    out.append({'kind': 'sites', 'rules': rules, 'points': o})
+    if cap is not None and len(out) > cap:
+        rng = _random.Random('race-%s-%d' % (case.get('name'), seed))
+        small = [s for s in out if len(s['rules']) < depth]
+        big = [s for s in out if len(s['rules']) == depth]
+        if len(small) >= cap:
+            out = rng.sample(small, cap)
+        else:
+            out = small + rng.sample(big, cap - len(small))
+    return out
